@@ -301,6 +301,10 @@ func csrfHostname(h string) string {
 }
 
 func csrfMain(s *simrt.Sim, info *harness.RunInfo) {
+	if s.Chance(80) {
+		csrfExpiryRace(s, info)
+		return
+	}
 	harness.ChooseTransportNoPause(s, 150) // some runs go through fasthttp's real connection loop
 	faults := s.Chance(500)
 	info.Faults = faults
@@ -1499,4 +1503,94 @@ func csrfConcurrent(s *simrt.Sim, info *harness.RunInfo, k *csrfConc) {
 	info.StateHash = h.h
 	info.Nontrivial = overlapReplays > 0
 	info.Sample = map[string]any{"config": k.cfgLine, "requests": len(ops), "unsafe_admitted": admitted, "unsafe_rejected": rejected, "replays_in_handler": overlapReplays}
+}
+
+// ---- two requests of one client at the instant its token's record expires -------------------------
+//
+// A small scenario of its own (the big histories are sequential per client): one browser, token T issued with a
+// lifetime of 3 s on an in-tree memory storage. At the very instant at which the coarse clock makes T's record
+// expire - the storages' collectors tick at that instant too - the browser sends a POST presenting T and a GET
+// carrying T's cookie, as two tasks; the seeded scheduler orders their storage calls, the clock tick and the collector.
+// What is demanded afterwards follows from the statement alone: if the POST was admitted, T was looked up alive and
+// its lifetime renewed, so 1.25 s later - well inside the renewed lifetime, whichever side of the tick the renewal
+// fell on - a POST presenting T is admitted (it was neither consumed nor deleted: no single use, no DeleteToken here).
+func csrfExpiryRace(s *simrt.Sim, info *harness.RunInfo) {
+	backend := simrt.PickS(s, "memory", "extmem")
+	preempt := simrt.PickS(s, 400, 250, 600)
+	phase := s.Draw(1000)
+	cfgLine := fmt.Sprintf("expiry-race backend=%s preempt=%d phase=%d", backend, preempt, phase)
+	s.Logf("cfg %s", cfgLine)
+	simrt.Sleep(time.Duration(phase) * time.Millisecond)
+	harness.StartCoarseClock(s, 0)
+	start := time.Now() // the clock daemon ticks at start + k s; so do the collectors of storages created now
+	nid := 0
+	cfg := csrf.Config{IdleTimeout: 3 * time.Second, KeyGenerator: func() string {
+		nid++
+		return fmt.Sprintf("race-token-%04d-%s", nid, strings.Repeat("r", 12))
+	}}
+	if backend == "extmem" {
+		cfg.Storage = simexport.NewMemoryStorageGC(time.Second)
+	}
+	app := fiber.New()
+	app.Use(csrf.New(cfg))
+	app.Get("/page", func(c fiber.Ctx) error { return c.SendString("page") })
+	app.Post("/do", func(c fiber.Ctx) error { return c.SendString("done") })
+	app.Handler()
+	tokenOf := func(r *harness.Resp) string {
+		for _, sc := range r.Header["Set-Cookie"] {
+			if v, ok := strings.CutPrefix(sc, "csrf_="); ok {
+				return strings.SplitN(v, ";", 2)[0]
+			}
+		}
+		return ""
+	}
+	post := func(conn *harness.Conn, tok string) int {
+		return conn.Do(harness.Req{Method: "POST", Path: "/do", Headers: [][2]string{{"Cookie", "csrf_=" + tok}, {"X-Csrf-Token", tok}}}.Bytes()).Status
+	}
+	// issue T off the grid, so that the clock value at that moment is not in question
+	simrt.Sleep(time.Duration(s.Draw(3))*time.Second + 250*time.Millisecond)
+	c0 := harness.NewConn(app, "10.0.0.1")
+	tok := tokenOf(c0.Do(harness.Req{Method: "GET", Path: "/page"}.Bytes()))
+	if tok == "" {
+		s.Fail("C16.harness", "expiry race: no token was issued")
+		return
+	}
+	// the third tick from now makes the record expire
+	since := time.Since(start)
+	nextTick := start.Add((since/time.Second + 1) * time.Second)
+	pairAt := nextTick.Add(2 * time.Second)
+	var s1, s2 int
+	var tok2 string
+	s.SetPreempt(preempt)
+	var wg sync.WaitGroup
+	wg.Add(2)
+	simrt.GoNamed("post-with-token", func() {
+		defer wg.Done()
+		conn := harness.NewConn(app, "10.0.0.1")
+		simrt.Sleep(time.Until(pairAt))
+		s1 = post(conn, tok)
+	})
+	simrt.GoNamed("get-with-cookie", func() {
+		defer wg.Done()
+		conn := harness.NewConn(app, "10.0.0.1")
+		simrt.Sleep(time.Until(pairAt))
+		r := conn.Do(harness.Req{Method: "GET", Path: "/page", Headers: [][2]string{{"Cookie", "csrf_=" + tok}}}.Bytes())
+		s2, tok2 = r.Status, tokenOf(r)
+	})
+	join(&wg)
+	s.SetPreempt(0)
+	simrt.Sleep(1250 * time.Millisecond)
+	s3 := post(c0, tok)
+	s.Logf("expiry race: POST %d, GET %d (cookie afterwards %q), POST 1.25 s later %d", s1, s2, tok2, s3)
+	raced := s1 == 200 && tok2 != "" && tok2 != tok
+	if raced {
+		// the GET found the record expired while the POST had found it alive
+		s.Count("probe_lookup_raced_with_expiry_of_the_record")
+	}
+	if s1 == 200 && s3 != 200 {
+		s.Fail("C16.valid-token-rejected-after-concurrent-lookup", "backend %s: a POST presenting token T was admitted at the instant T's record was due to expire (its lifetime of 3 s was renewed), a GET with T's cookie ran at the same instant; 1.25 s later a POST presenting T got status %d: the renewed record is gone although the token was neither consumed nor deleted", backend, s3)
+	}
+	info.StateHash = newHasher().str(cfgLine).int(s1).int(s3).str(fmt.Sprint(raced)).h
+	info.Nontrivial = raced
+	info.Sample = map[string]any{"config": cfgLine}
 }
